@@ -14,6 +14,8 @@ import (
 	"context"
 	"encoding/xml"
 	"fmt"
+	"io"
+	"runtime"
 	"strings"
 	"sync"
 	"time"
@@ -28,7 +30,11 @@ import (
 	"verifharness/common"
 )
 
-type ctx struct{ r *common.Run }
+type ctx struct {
+	r *common.Run
+	// ws: the sessions of `check` use the WebSocket subprotocol (the reader's framing check is on)
+	ws bool
+}
 
 func name(l string) xml.Name { return xml.Name{Local: l} }
 
@@ -140,6 +146,23 @@ func c08AttrVal(as []xml.Attr, l string) string {
 
 func isEnd(t xml.Token) bool { _, ok := t.(xml.EndElement); return ok }
 
+// trimLeft drops the white space text that precedes the first other token.
+type trimLeft struct {
+	r    xml.TokenReader
+	done bool
+}
+
+func (t *trimLeft) Token() (xml.Token, error) {
+	for {
+		tok, err := t.r.Token()
+		if cd, ok := tok.(xml.CharData); ok && !t.done && strings.TrimLeft(string(cd), " \t\r\n") == "" && err == nil {
+			continue
+		}
+		t.done = true
+		return tok, err
+	}
+}
+
 type req struct {
 	body []byte // the element
 	desc string
@@ -165,6 +188,53 @@ func (c *ctx) check(ns, mode string, element string, prog c08.Prog, class string
 		}
 	case "u":
 		mk = func(rec xmpp.Handler) xmpp.Handler { return mux.New(ns) }
+	case "x":
+		// a router of the application's own built on the exported lookup ServeMux.IQHandler (the
+		// package documentation invites that): it does what the multiplexer's own router does and
+		// calls whatever handler the multiplexer returns - nothing is registered, so that is the
+		// library's default handler
+		mk = func(rec xmpp.Handler) xmpp.Handler {
+			m := mux.New(ns)
+			return xmpp.HandlerFunc(func(t xmlstream.TokenReadEncoder, start *xml.StartElement) error {
+				if !stanza.Is(start.Name, ns) || start.Name.Local != "iq" {
+					return m.HandleXMPP(t, start)
+				}
+				iq, err := stanza.NewIQ(*start)
+				if err != nil {
+					return err
+				}
+				inner := struct {
+					xml.TokenReader
+					xmlstream.Encoder
+				}{TokenReader: &trimLeft{r: xmlstream.Inner(t)}, Encoder: t}
+				tok, err := inner.Token()
+				if err != nil && (err != io.EOF || iq.Type != stanza.ResultIQ) {
+					return err
+				}
+				payloadStart, ok := tok.(xml.StartElement)
+				if tok != nil && !ok {
+					return fmt.Errorf("xmpp: received IQ with invalid payload of type %T", tok)
+				}
+				h, _ := m.IQHandler(iq.Type, payloadStart.Name)
+				return h.HandleIQ(iq, inner, &payloadStart)
+			})
+		}
+	case "n":
+		// Serve(nil): the session's own handler that does nothing
+		mk = func(rec xmpp.Handler) xmpp.Handler { return nil }
+	case "p", "t":
+		// a multiplexer with a handler for some requests only: for get and set with the payload
+		// {urn:q}q (p), for get with any payload (t); every other request falls back
+		mk = func(rec xmpp.Handler) xmpp.Handler {
+			h := mux.IQHandlerFunc(func(iq stanza.IQ, t xmlstream.TokenReadEncoder, start *xml.StartElement) error {
+				return rec.HandleXMPP(t, start)
+			})
+			if mode == "p" {
+				q := xml.Name{Space: "urn:q", Local: "q"}
+				return mux.New(ns, mux.IQ(stanza.GetIQ, q, h), mux.IQ(stanza.SetIQ, q, h))
+			}
+			return mux.New(ns, mux.IQ(stanza.GetIQ, xml.Name{}, h))
+		}
 	case "q":
 		// what most IQ handlers do: answer with a reply built from the stanza.IQ the
 		// multiplexer parsed (stanza.NewIQ), not from the start element
@@ -176,8 +246,8 @@ func (c *ctx) check(ns, mode string, element string, prog c08.Prog, class string
 			return mux.New(ns, mux.IQ(stanza.GetIQ, xml.Name{}, h), mux.IQ(stanza.SetIQ, xml.Name{}, h))
 		}
 	}
-	res := c08.Serve(ns, local, remote, body, []c08.Prog{prog}, mk)
-	line := strings.Join([]string{"elem", mode, c08.NsField(ns), common.HexS(res.LocalBare), c08.JidMap(toks), common.EncToks(toks), prog.Enc()}, " ")
+	res := c08.ServeOpt(c08.Opts{FailAfter: -1, WS: c.ws}, ns, local, remote, body, []c08.Prog{prog}, mk, nil)
+	line := strings.Join([]string{"elem", mode, c08.NsFieldWS(ns, c.ws), common.HexS(res.LocalBare), c08.JidMap(toks), common.EncToks(toks), prog.Enc()}, " ")
 	lines := []string{r.Prop + " " + line, "#elem " + common.HexS(element)}
 	switch {
 	case res.Stall:
@@ -189,7 +259,7 @@ func (c *ctx) check(ns, mode string, element string, prog c08.Prog, class string
 		r.Fail("no-panic", "panic", lines, res.Panic)
 		return
 	}
-	els, _, werr := c08.Written(ns, res.Out)
+	els, streamClosed, werr := c08.Written(ns, res.Out)
 	wobs, _ := c08.WrittenObs(els)
 	cls := c08.ErrClass(res.Err)
 	r.Line(line, wobs+" "+cls)
@@ -271,6 +341,12 @@ func (c *ctx) check(ns, mode string, element string, prog c08.Prog, class string
 		if (isIQ && (typ == "result" || typ == "error") || st.Name.Local != "iq") && added > 0 {
 			fail("no-auto-reply", "added-on-error", fmt.Sprintf("%d elements added for a non-request", added))
 		}
+		// "... unless the stream itself is terminated": a request that got no reply is only
+		// acceptable when the session really ended the stream - the closing tag is on the wire
+		// (the stream error element itself stays in the encoder's buffer, see DESIGN-notes/C08.md)
+		if request && id != "" && outReplies == 0 && !streamClosed {
+			fail("answered-or-terminated", "not-terminated", fmt.Sprintf("no reply to %q on the wire, Serve returned %s, and the stream was not closed", id, cls))
+		}
 		return
 	}
 	if request && id != "" {
@@ -341,7 +417,7 @@ func (c *ctx) check(ns, mode string, element string, prog c08.Prog, class string
 			// (behind the multiplexer the one reply may be the multiplexer's or a registered
 			// handler's own: the property then only asks for a reply; the session's own is
 			// the service-unavailable error)
-			if mode == "d" && (lastReply.Typ != "error" || !lastReply.SU) {
+			if (mode == "d" || mode == "n") && (lastReply.Typ != "error" || !lastReply.SU) {
 				fail("answered-once", "not-service-unavailable", fmt.Sprintf("added reply type=%q su=%v", lastReply.Typ, lastReply.SU))
 			}
 		}
@@ -575,6 +651,102 @@ func (c *ctx) faulty(ns string, failAfter int, once bool, elements []string, pro
 }
 
 // pend is a local request that is waiting for its response while the peer's input is served.
+
+// outstate runs several elements in ONE session whose output cannot take a reply any more: the
+// local side closed it before Serve (st = 1), an earlier Send was abandoned inside an element
+// (st = 2), or a handler closes it / writes half an element (st = 0, see the programs).  The
+// property: a request that cannot be answered is only acceptable when the stream is terminated
+// - Serve returns (no stall), with an error, nothing after the request is served, and (unless
+// the local side had closed the stream itself) the closing tag goes out.
+func (c *ctx) outstate(ns string, st int, elements []string, progs []c08.Prog, class string) {
+	r := c.r
+	local, remote := c08.LocalJID, c08.RemoteJID
+	if ns == c08.NSServer {
+		local, remote = c08.LocalSrv, c08.RemoteSrv
+	}
+	body := []byte(strings.Join(elements, "") + "</stream:stream>")
+	toks := c08.Tokens(ns, body)
+	opt := c08.Opts{FailAfter: -1, PreBroken: st == 2, Watchdog: 3 * time.Second}
+	var before func(s *xmpp.Session, out *common.SafeBuffer) func()
+	if st == 1 {
+		before = func(s *xmpp.Session, out *common.SafeBuffer) func() { _ = s.Close(); return nil }
+	}
+	res := c08.ServeOpt(opt, ns, local, remote, body, progs, nil, before)
+	line := strings.Join([]string{"servex", fmt.Sprint(st), c08.NsField(ns), common.HexS(res.LocalBare), c08.JidMap(toks), common.EncToks(toks), c08.EncProgs(progs)}, " ")
+	lines := []string{r.Prop + " " + line, "#outstate " + common.HexS(strings.Join(elements, "\x00")) + " " + fmt.Sprint(st)}
+	switch {
+	case res.Stall:
+		r.Line(line, "STALL")
+		r.Fail("answered-or-terminated", "stall", lines, "a request could not be answered and Serve never returned: no reply, no stream error, no closing tag")
+		return
+	case res.Panic != "":
+		r.Line(line, "PANIC")
+		r.Fail("no-panic", "panic", lines, res.Panic)
+		return
+	}
+	els, streamClosed, _ := c08.Written(ns, res.Out)
+	var outEls []c08.Elem
+	for _, e := range els {
+		if !e.StreamError && e.ID != "abandoned" {
+			outEls = append(outEls, e)
+		}
+	}
+	wobs, _ := c08.WrittenObs(outEls)
+	cls := c08.ErrClass(res.Err)
+	r.Line(line, fmt.Sprintf("%d %s %s", len(res.Invs), wobs, cls))
+	r.Case(line, true, fmt.Sprintf("%s/outstate/%d/%s", class, st, cls))
+	localClosed := st == 1
+	depth, k := 0, 0
+	for _, t := range toks {
+		switch tt := t.(type) {
+		case xml.StartElement:
+			if depth == 0 {
+				if k < len(progs) && progs[k].Close {
+					localClosed = true
+				}
+				id, typ := c08AttrVal(tt.Attr, "id"), c08AttrVal(tt.Attr, "type")
+				isIQ := tt.Name.Local == "iq" && (tt.Name.Space == c08.NSClient || tt.Name.Space == c08.NSServer)
+				if isIQ && (typ == "get" || typ == "set") && id != "" && k < len(res.Invs) {
+					got := 0
+					for _, e := range outEls {
+						if isReply(e.Toks, id, ns) {
+							got++
+						}
+					}
+					if got == 0 {
+						// coarse cause: the request's own handler returned nil with an element of
+						// its own still open (or after an end tag nothing was open for)
+						cause := ""
+						if k < len(progs) {
+							var w []xml.Token
+							for _, o := range progs[k].Ops {
+								w = append(w, o.Write...)
+							}
+							if c08.Unbalanced(w) {
+								cause = "/own-handler-left-element-open"
+							}
+						}
+						switch {
+						case len(res.Invs) > k+1:
+							r.Fail("answered-or-terminated", "served-on-after-lost-reply"+cause, lines, fmt.Sprintf("request %d (id %q) got no reply and %d more elements were handled", k, id, len(res.Invs)-k-1))
+						case cls == "clean":
+							r.Fail("answered-or-terminated", "nil-after-lost-reply"+cause, lines, fmt.Sprintf("request %d (id %q) got no reply and Serve returned nil", k, id))
+						case !streamClosed && !localClosed:
+							r.Fail("answered-or-terminated", "not-terminated", lines, fmt.Sprintf("request %d (id %q) got no reply, Serve returned %s, and the stream was not closed", k, id, cls))
+						}
+					} else if got > 1 {
+						r.Fail("answered-once", "double", lines, fmt.Sprintf("request %d (id %q): %d replies on the wire", k, id, got))
+					}
+				}
+				k++
+			}
+			depth++
+		case xml.EndElement:
+			depth--
+		}
+	}
+}
+
 type pend struct {
 	id   string
 	name xml.Name // name of the request's start element as given to SendIQ
@@ -1057,6 +1229,28 @@ func Run(r *common.Run) error {
 				c.faulty(ns, fa, f[2] == "1", strings.Split(string(sb), "\x00"), ps, "replay")
 				continue
 			}
+			if len(f) == 3 && f[0] == "#outstate" && i > 0 {
+				sb, err := common.UnHex(f[1])
+				if err != nil {
+					return err
+				}
+				g := strings.Fields(lines[i-1])
+				if len(g) < 8 {
+					continue
+				}
+				ns := c08.NSClient
+				if strings.HasPrefix(g[3], "s") {
+					ns = c08.NSServer
+				}
+				st := 0
+				fmt.Sscanf(f[2], "%d", &st)
+				ps, err := c08.DecProgs(g[7])
+				if err != nil {
+					return err
+				}
+				c.outstate(ns, st, strings.Split(string(sb), "\x00"), ps, "replay")
+				continue
+			}
 			if len(f) == 2 && f[0] == "#session" && i > 0 {
 				sb, err := common.UnHex(f[1])
 				if err != nil {
@@ -1175,6 +1369,155 @@ func Run(r *common.Run) error {
 				}
 			}
 		}
+	}
+
+	// Serve(nil) and multiplexers that have a handler for some requests only: every incoming
+	// shape (names x types x from x payloads), with the recording handler answering or not
+	for _, ns := range []string{c08.NSClient, c08.NSServer} {
+		own := map[string]string{c08.NSClient: "me@example.com", c08.NSServer: "example.com"}[ns]
+		for li, l := range locals {
+			for ti, typ := range types {
+				for fi, from := range froms {
+					if from == "OWN" {
+						from = own
+					}
+					for pi, pl := range payloads {
+						if ns == c08.NSServer && (li+ti+fi+pi)%3 != 0 {
+							continue
+						}
+						id := fmt.Sprintf("z%d", pi)
+						for _, to := range []string{"-", own + "/res"} {
+							if to != "-" && (li+ti+pi)%2 != 0 {
+								continue
+							}
+							e := element(l.local, l.ns, id, typ, from, to, "", pl)
+							c.check(ns, "n", e, progOf(nil, id, 0, "ok"), "nil-handler")
+							c.check(ns, "x", e, progOf(nil, id, 0, "ok"), "mux-exported-lookup")
+							for _, m := range []string{"p", "t"} {
+								c.check(ns, m, e, progOf(nil, id, pi%2, "ok"), "mux-partial")
+								c.check(ns, m, e, progOf([]string{"result"}, id, 0, "ok"), "mux-partial")
+								if (li+ti+fi)%3 == 0 {
+									c.check(ns, m, e, progOf([]string{"otherid"}, id, 1, "ok"), "mux-partial")
+								}
+							}
+						}
+					}
+				}
+			}
+		}
+	}
+	r.Exhaustive = append(r.Exhaustive, "Serve(nil) and multiplexers with a handler for one payload / one type only x 7 names x 6 types x 3 from values x 6 payloads x with / without to")
+
+	// sessions that use the WebSocket subprotocol: the same detector, default reply and
+	// multiplexer; framing elements among the payloads end the session
+	c.ws = true
+	for _, ns := range []string{c08.NSClient, c08.NSServer} {
+		for ti, typ := range types {
+			for pi, pl := range append(append([]string{}, payloads...), `<close xmlns="urn:ietf:params:xml:ns:xmpp-framing"/>`, `<q xmlns="urn:q"><open xmlns="urn:ietf:params:xml:ns:xmpp-framing"/></q>`) {
+				id := fmt.Sprintf("w%d", pi)
+				e := element("iq", "", id, typ, "a@example.org/r", "-", "", pl)
+				for mi, m := range []string{"d", "r", "u", "q", "n", "p"} {
+					if ns == c08.NSServer && (ti+pi+mi)%2 != 0 {
+						continue
+					}
+					c.check(ns, m, e, progOf(nil, id, pi%3, "ok"), "websocket")
+					if m == "d" || m == "r" {
+						c.check(ns, m, e, progOf([]string{"result"}, id, 9, "ok"), "websocket")
+						c.check(ns, m, e, progOf([]string{"nested"}, id, 0, "ok"), "websocket")
+					}
+				}
+			}
+		}
+	}
+	c.ws = false
+
+	// the output cannot take a reply: closed before Serve, left inside an element by an abandoned
+	// Send before Serve, closed or left inside an element by the handler of an earlier element
+	{
+		half := [][]xml.Token{
+			{xml.StartElement{Name: name("message")}},
+			{xml.StartElement{Name: name("message")}, xml.CharData("x")},
+			{xml.StartElement{Name: name("a")}, xml.StartElement{Name: name("b")}, xml.EndElement{Name: name("b")}},
+			{xml.EndElement{Name: name("x")}},
+		}
+		q := `<q xmlns="urn:q"/>`
+		sets := [][]string{
+			{`<iq type="get" id="b1">` + q + `</iq>`, `<message id="after"/>`},
+			{`<message id="m1"/>`, `<iq type="set" id="b2" from="a@example.org/r">` + q + `</iq>`, `<presence/>`},
+			{`<iq type="result" id="b3"/>`, `<iq type="get" id="b4">` + q + `</iq>`, `<iq type="get" id="b5">` + q + `</iq>`},
+			{`<message id="m2"/>`, `<x xmlns="urn:x"/>`},
+		}
+		for _, ns := range []string{c08.NSClient, c08.NSServer} {
+			for si, set := range sets {
+				for _, beh := range []string{"silent", "reply", "nonreply"} {
+					mk := func(id string) c08.Prog {
+						switch beh {
+						case "reply":
+							return progOf([]string{"result"}, id, 1, "ok")
+						case "nonreply":
+							return progOf([]string{"message"}, id, 0, "ok")
+						}
+						return progOf(nil, id, 1, "ok")
+					}
+					ids := [][]string{{"b1", "-"}, {"-", "b2", "-"}, {"b3", "b4", "b5"}, {"-", "-"}}[si]
+					var ps []c08.Prog
+					for _, id := range ids {
+						ps = append(ps, mk(id))
+					}
+					for st := 1; st <= 2; st++ {
+						c.outstate(ns, st, set, ps, "outstate")
+					}
+					// the handler of the first element closes the output / writes half an element
+					cl := append([]c08.Prog{}, ps...)
+					cl[0] = c08.Prog{Ret: "ok", Close: true}
+					c.outstate(ns, 0, set, cl, "outstate")
+					for hi, h := range half {
+						if ns == c08.NSServer && hi%2 == 1 {
+							continue
+						}
+						hp := append([]c08.Prog{}, ps...)
+						hp[0] = c08.Prog{Ret: "ok", Ops: []c08.Op{{Write: h}}}
+						c.outstate(ns, 0, set, hp, "outstate")
+					}
+				}
+			}
+		}
+	}
+
+	// histories of sessions in ONE process, one after the other on a single scheduler thread (so
+	// that whatever the library keeps at package level - pools, caches - is handed from one
+	// session to the next): an earlier session ends in the middle of things (its handler fails
+	// after half an element, after an unclosed nested element, after closing more than it opened,
+	// with the payload half read), then every write shape is judged in a fresh session.  Sessions
+	// are independent: the expected answer of a line never depends on what ran before it.
+	{
+		prevProcs := runtime.GOMAXPROCS(1)
+		q := `<q xmlns="urn:q"><item/></q>`
+		aborts := [][]xml.Token{
+			{xml.StartElement{Name: name("iq"), Attr: iqAttrs("h0", "result")}},
+			{xml.StartElement{Name: name("iq"), Attr: iqAttrs("h0", "result")}, xml.StartElement{Name: name("q")}},
+			{xml.StartElement{Name: name("message")}, xml.CharData("x")},
+			{xml.EndElement{Name: name("x")}},
+		}
+		for _, ns := range []string{c08.NSClient, c08.NSServer} {
+			for ai, ab := range aborts {
+				for _, ret := range []string{"fail", "streamerr", "ok"} {
+					for wi, w := range writeNames {
+						if ns == c08.NSServer && (ai+wi)%3 != 0 {
+							continue
+						}
+						if r.Quick() && ret != "fail" && (ai+wi)%2 != 0 {
+							continue
+						}
+						c.outstate(ns, 0, []string{`<iq type="get" id="h0">` + q + `</iq>`, `<message id="h1"/>`},
+							[]c08.Prog{{Ret: ret, Ops: []c08.Op{{Read: true}, {Write: ab}}}}, "history-abort")
+						e := element("iq", "", "hq", []string{"get", "set"}[wi%2], "a@example.org/r", "-", "", payloads[0])
+						c.check(ns, []string{"d", "r"}[(ai+wi)%2], e, progOf([]string{w}, "hq", wi%3, "ok"), "history")
+					}
+				}
+			}
+		}
+		runtime.GOMAXPROCS(prevProcs)
 	}
 	// every reply / non-reply shape written through all three methods of the encoder handed to
 	// handlers: EncodeToken, Encode(value) with a Marshaler / WriterTo / TokenReader / plain
